@@ -42,10 +42,15 @@ def make_trait(policy):
             "any": lambda: Any(), "readonly": lambda: ReadOnly, "constant": lambda: Constant(9),
             "event": lambda: Event(), "disallow": lambda: Disallow,
             "python": lambda: Python,
-            "listint": lambda: __import__("traits.api").api.List(Int)}[policy]()
+            "listint": lambda: __import__("traits.api").api.List(Int),
+            # a container inside a compound trait: the class has no '<name>_items'
+            # companion; the first in-place mutation adds one to THAT instance
+            "ulist": lambda: __import__("traits.api").api.Union(
+                None, __import__("traits.api").api.List(Int))}[policy]()
 
 
-DEFAULTS = {"int": 1, "str": "d", "float": 0.5, "any": None, "constant": 9, "listint": []}
+DEFAULTS = {"int": 1, "str": "d", "float": 0.5, "any": None, "constant": 9, "listint": [],
+            "ulist": None}
 
 
 def valid(policy, v):
@@ -55,7 +60,7 @@ def valid(policy, v):
         return type(v) is str, v
     if policy == "float":
         return type(v) in (int, float), float(v) if type(v) in (int, float) else v
-    if policy == "listint":
+    if policy in ("listint", "ulist"):
         return False, v          # (the value pool holds scalars only)
     return True, v
 
@@ -101,6 +106,12 @@ class Prop:
         other["prefix"].pop("", None)
         both = decls(c.randint(0, 1), c.choice([0, 0, 0, 1]))
         kind = c.choice(["HasTraits", "HasTraits", "HasStrictTraits", "HasPrivateTraits"])
+        uname = None
+        if c.random() < 0.3:
+            # every class declares Union(None, List(Int)) under one name
+            uname = c.choice(["zzz", "abc", "fox"])
+            base["explicit"][uname] = "ulist"
+            other["explicit"][uname] = "ulist"
         # re-entrancy: a trait_added listener that declares an instance trait for some
         # names the moment they are first resolved ("declare on first use")
         listener = {}
@@ -132,6 +143,9 @@ class Prop:
                     op["policy"] = "listint"
             elif x < 0.93:
                 op = {"k": "remove_trait", "o": o, "name": name}
+                if uname is not None and r.random() < 0.5:
+                    # assign a list and mutate it in place
+                    op = {"k": "mutate", "o": o, "name": uname}
             else:
                 op = {"k": "gc"}
             ops.append(op)
@@ -298,6 +312,25 @@ class Prop:
                 env.end_op()
                 env.token("add_trait", op["policy"])
                 continue
+            if k == "mutate":
+                comp = name + "_items"
+                if (pol == "ulist" and name not in rec["itraits"] and comp not in rec["itraits"]
+                        and comp not in rec["touched"] and comp not in listener
+                        and comp not in resolved.get(which, ())
+                        and not any(comp in layer["explicit"]
+                                    for layer in self.layers(cfg, which))):
+                    _, e = sut(lambda: (setattr(o, name, [1]), getattr(o, name).append(2)))
+                    if e is not None:
+                        raise Violation("C13.mutate", "%s = [1]; %s.append(2) raised %r"
+                                        % (name, name, e), i)
+                    rec["state"][name] = [1, 2]
+                    rec["touched"].add(name)
+                    # the companion is an instance trait of THIS object only
+                    rec["itraits"][comp] = "itemsevent"
+                    env.probe("items-companion-added-by-mutation")
+                env.end_op()
+                env.token("mutate")
+                continue
             if k == "remove_trait":
                 if name in rec["itraits"]:
                     _, e = sut(o.remove_trait, name)
@@ -330,7 +363,7 @@ class Prop:
                 else:
                     want = ("value", DEFAULTS[pol] if st is UNSET else st)
                 got_v, e = sut(getattr, o, name)
-                if pol == "listint" and e is None:
+                if pol in ("listint", "ulist") and e is None and isinstance(got_v, list):
                     got_v = list(got_v)
                 got = ("value", got_v) if e is None else (exc_name(e),)
             elif k == "set":
